@@ -90,8 +90,8 @@ class AssemblyManager(object):
             for i, ref in enumerate(feature.qualifiers.get("citation", [])):
                 if ref not in references:
                     references.append(ref)
-                ref_index = references.find(ref) + 1
-                feature.qualifiers["citation"][i] = "{}".format(ref_index)
+                ref_index = references.index(ref) + 1
+                feature.qualifiers["citation"][i] = "[{}]".format(ref_index)
 
     def _annotate_assembly(self, assembly):
         assembly.id = self.id
